@@ -1494,6 +1494,7 @@ ldb_versions_recover(ldb_versions_t *vset, int *save_manifest) {
   uint64_t log_number = 0;
   uint64_t prev_log_number = 0;
   int read_records = 0;
+  int manifest_dirty = 0;
   builder_t builder;
   ldb_rfile_t *file;
   int rc;
@@ -1570,6 +1571,8 @@ ldb_versions_recover(ldb_versions_t *vset, int *save_manifest) {
       }
     }
 
+    manifest_dirty = reader.dirty;
+
     ldb_edit_clear(&edit);
     ldb_buffer_clear(&buf);
     ldb_reader_clear(&reader);
@@ -1609,7 +1612,7 @@ ldb_versions_recover(ldb_versions_t *vset, int *save_manifest) {
     vset->prev_log_number = prev_log_number;
 
     /* See if we can reuse the existing MANIFEST file. */
-    if (ldb_versions_reuse_manifest(vset, fname)) {
+    if (!manifest_dirty && ldb_versions_reuse_manifest(vset, fname)) {
       /* No need to save new manifest. */
     } else {
       *save_manifest = 1;
